@@ -439,17 +439,7 @@ func runFG(c *Ctx, over bool) []*ssa.Function {
 	_, t, ops := srcAnalysis(c)
 	// the header read: the thrift decoder of schema.PageHeader — whatever runtime function calls it (PageHeader(), or a
 	// helper that decodes into a header object handed in by its caller)
-	var hdrFn *ssa.Function
-	if schPkg := u.Pkgs[rtPath].Imports[schPath]; schPkg != nil {
-		if obj := schPkg.Types.Scope().Lookup("PageHeader"); obj != nil {
-			ms := u.Prog.MethodSets.MethodSet(types.NewPointer(obj.Type()))
-			for i := 0; i < ms.Len(); i++ {
-				if fn, ok := ms.At(i).Obj().(*types.Func); ok && fn.Name() == "Read" {
-					hdrFn = u.Prog.FuncValue(fn)
-				}
-			}
-		}
-	}
+	hdrFn := thriftHeaderRead(u)
 	if hdrFn == nil {
 		r.failf("(*schema.PageHeader).Read not found")
 		return nil
@@ -714,4 +704,19 @@ func callsDirectly(f, callee *ssa.Function) bool {
 		}
 	}
 	return false
+}
+
+// thriftHeaderRead: the thrift decoder of schema.PageHeader, (*PageHeader).Read.
+func thriftHeaderRead(u *Universe) *ssa.Function {
+	if schPkg := u.Pkgs[rtPath].Imports[schPath]; schPkg != nil {
+		if obj := schPkg.Types.Scope().Lookup("PageHeader"); obj != nil {
+			ms := u.Prog.MethodSets.MethodSet(types.NewPointer(obj.Type()))
+			for i := 0; i < ms.Len(); i++ {
+				if fn, ok := ms.At(i).Obj().(*types.Func); ok && fn.Name() == "Read" {
+					return u.Prog.FuncValue(fn)
+				}
+			}
+		}
+	}
+	return nil
 }
